@@ -102,10 +102,24 @@ def run_tables():
 
 
 def ensure_makefile():
+    """(Re)generate coq/Makefile from _CoqProject, keeping only files that exist (a
+    listed but not yet written file would break every target)."""
     mk = os.path.join(COQ, "Makefile")
     cp = os.path.join(COQ, "_CoqProject")
-    if not os.path.exists(mk) or os.path.getmtime(mk) < os.path.getmtime(cp):
-        rc, out = sh(["coq_makefile", "-f", "_CoqProject", "-o", "Makefile"], cwd=COQ)
+    lines = []
+    with open(cp) as f:
+        for line in f:
+            t = line.strip()
+            if t.endswith(".v") and not t.startswith("-") and not os.path.exists(os.path.join(COQ, t)):
+                continue
+            lines.append(line if line.endswith("\n") else line + "\n")
+    text = "".join(lines)
+    gen = os.path.join(COQ, "_CoqProject.gen")
+    old = open(gen).read() if os.path.exists(gen) else None
+    if old != text or not os.path.exists(mk):
+        with open(gen, "w") as f:
+            f.write(text)
+        rc, out = sh(["coq_makefile", "-f", "_CoqProject.gen", "-o", "Makefile"], cwd=COQ)
         if rc != 0:
             raise RuntimeError("coq_makefile failed: " + out)
 
@@ -253,7 +267,7 @@ def build_model_driver(name, ml_extra=()):
         os.makedirs(bdir, exist_ok=True)
         for f in os.listdir(bdir):
             os.remove(os.path.join(bdir, f))
-        rc, out = sh(["coqc", "-Q", COQ, "RV", "-noglob", "-o", os.path.join(bdir, "Extract.vo"), ext], cwd=bdir, timeout=600)
+        rc, out = sh(["coqc", "-Q", COQ, "RV", "-noglob", "-o", os.path.join(bdir, "Extract%s.vo" % cap), ext], cwd=bdir, timeout=600)
         if rc != 0:
             return False, out
         extracted = {f[:-3] for f in os.listdir(bdir) if f.endswith(".ml")}
